@@ -1,11 +1,13 @@
 #!/bin/bash
 # usage: confirm_seed.sh <id>   (seed worktree /tmp/seed-<id>, deliverables /tmp/seedout-<id>)
+# (git stash is shared between worktrees: the change is taken off and put back with git apply)
 id=$1; wt=/tmp/seed-$id; out=/tmp/seedout-$id
 export GOFLAGS=-mod=mod GOPROXY=off
 cd $out
+git -C $wt diff > /tmp/seed_cur_$id.diff
 with=$(timeout 900 bash ./demo.sh >/tmp/seed_demo_with_$id.log 2>&1; echo $?)
-git -C $wt stash -q
+git -C $wt apply -R /tmp/seed_cur_$id.diff
 (cd $wt && go build ./... >/dev/null 2>&1); b=$?
 without=$(timeout 900 bash ./demo.sh >/tmp/seed_demo_without_$id.log 2>&1; echo $?)
-git -C $wt stash pop -q
+git -C $wt apply /tmp/seed_cur_$id.diff
 echo "$id demo_with_change_exit=$with demo_without_change_exit=$without build_ok=$b"
